@@ -172,7 +172,9 @@ def gen_int_model(rng):
     for k in range(rng.choice([1, 1, 2])):
         lb = rng.choice([0, 0, 0, 1, -1])
         # (an integer variable of [0, 1] IS a binary for OR-tools and for the interface: not generated)
-        ints.append({"lb": lb, "ub": lb + rng.choice([1, 2, 3, 3] if lb else [2, 2, 3]), "obj": rng.choice([F(0), F(1, 10), F(1, 2), F(1)])})
+        # (objectives stay non-negative, as the property's quantifier says: a variable that can be negative carries no objective weight)
+        ints.append({"lb": lb, "ub": lb + rng.choice([1, 2, 3, 3] if lb else [2, 2, 3]),
+                     "obj": F(0) if lb < 0 else rng.choice([F(0), F(1, 10), F(1, 2), F(1)])})
     c["ints"] = ints
     for e in c["eq"]:
         e["cn"] = [[k, rng.choice([F(1, 2), F(1), F(1), F(2)])] for k in range(len(ints)) if rng.random() < 0.7]
